@@ -557,6 +557,7 @@ def explore_c14(rng, tier, res, deep=False):
         pending.append(("hist\t(ops " + " ".join(ops_wire) + ")", outs_real, hist))
     subclass_alongside(rng, tier, res)
     typed_call_twins(rng, tier, res)
+    reregister_between_applications(rng, tier, res)
     try:
         reps = model.run_batch_parallel([p[0] for p in pending])
     except model.ModelError as err:
@@ -617,6 +618,42 @@ def typed_call_twins(rng, tier, res):
             res.violations.append({"property": "C14", "query": q, "observed": g, "expected": w,
                                    "history": [f"register f{tuple(ats1)}->{ret1}; compile the text ({first if isinstance(first, str) else 'compiled'}); register f again as {tuple(ats2)}->{ret2}; compile the text again"],
                                    "what": "after a function was registered again with another signature, a text is still judged by the old one"})
+
+
+def reregister_between_applications(rng, tier, res):
+    """A compiled query calls the function that its environment's registry holds WHEN IT IS APPLIED (the registry is
+    looked up at each evaluation — what compile-then-register-then-apply and apply-then-register-then-apply must agree
+    on): compile, apply, register the same name with another body, apply again, register back, apply again; every
+    result judged by the oracle for the registry of that moment; and an equal text compiled afresh must agree."""
+    base = dict(real.DEFAULT_ENVDESC, fns=gen.PROBE_FNS)
+    docs = [[{"a": 1}, {"a": 7}, {"b": 1}, 7, [7], "x"], {"p": {"a": 7}, "q": {"a": 2}, "r": 7}]
+    swaps = [("vf", ["V"], "V", "pick0", "const", "$[?vf(@.a) == 7]"), ("lf", ["L"], "L", "pick0", "const", "$[?lf(@.a)]"), ("nf", ["N"], "N", "pick0", "const", "$[?nf(@.a)]"),
+             ("vf", ["V"], "V", "pick0", "const", "$..[?vf(@) == 7]"), ("lf", ["L"], "L", "pick0", "const", "$[?!lf(@.b) && lf(@.a)]")]
+    lines, recs = [], []
+    for name, ats, ret, body1, body2, q in swaps:
+        for doc in docs:
+            env = real.make_env(base)
+            env.function_extensions[name] = real.make_probe(ats, ret, body1)
+            c = env.compile(q)
+            for step, body in enumerate([body1, body2, body1, body2]):
+                if step:
+                    env.function_extensions[name] = real.make_probe(ats, ret, body)
+                desc = dict(base, fns=[f for f in base["fns"] if f[0] != name] + [(name, ats, ret, body)])
+                got_old = outcome(lambda: enc_list(c.find(doc)))
+                got_new = outcome(lambda: enc_list(env.compile(q).find(doc)))
+                recs.append((q, doc, desc, got_old, got_new, step))
+                lines.append(f"rfc.query\t{real.enc_env(desc)}\t{wire.enc_str(q)}\t{wire.enc_json(doc)}")
+    for (q, doc, desc, got_old, got_new, step), rep in zip(recs, model.run_batch_parallel(lines)):
+        res.evaluations += 1
+        if rep.split("\t")[0] != "valid":
+            continue
+        want = rep.split("\t", 1)[1] if "\t" in rep else ""
+        for who, got in (("the query compiled before", got_old), ("the same text compiled now", got_new)):
+            if got != want:
+                res.violations.append({"property": "C14", "query": q, "document": doc, "env": desc, "observed": {who: str(got)[:300]}, "expected": want[:300],
+                                       "history": [f"compile; apply; register the function again with another body; apply (x{step}); the registry shown is the current one"],
+                                       "what": "after a function was registered again, " + who + " does not evaluate calls with the environment's current registry"})
+                break
 
 
 def subclass_alongside(rng, tier, res):
@@ -901,7 +938,77 @@ def explore_c16(rng, tier, res, deep=False):
                                            "what": "an interleaved iterator did not yield its solitary sequence"})
                     break
         res.sample({"queries": [q for _c, _d, q in specs], "counts": counts})
+    nd_iterators(rng, tier, res)
     thread_stress(rng, tier, res)
+
+
+def nd_iterators(rng, tier, res):
+    """Iterators of a NONDETERMINISTIC environment (the order each yields is its own random choice, so the solitary
+    "sequence" is known up to the permitted reorderings): k live iterators of one compiled query over the same and over
+    different objects, advanced alternately, one abandoned and collected half-way, one exhausted first — every node an
+    iterator yields must be a node of ITS value's result, none twice, and an exhausted iterator must have yielded all."""
+    import gc
+
+    import jsonpath_rfc9535 as jp
+
+    class ND(jp.JSONPathEnvironment):
+        nondeterministic = True
+
+    det = jp.JSONPathEnvironment()
+    docs = [{"a": 1, "b": 2, "c": 3}, {"x": 10, "y": 20, "z": 30}, {"p": {"u": 1, "v": 2}, "q": {"w": 3, "k": 4}, "r": 5}, [{"a": 1, "b": 2}, {"c": 3, "d": 4}], {"a": [1, 2], "b": {"c": [3]}}]
+    for q in ("$.*", "$[*]", "$..*", "$[?@]", "$.*.*", "$..[?@]", "$[?@ != 0]", "$..[*]"):
+        for di, da in enumerate(docs):
+            db = docs[(di + 1) % len(docs)]
+            for mode in ("alternate", "abandon", "exhaust-other-first", "same-value"):
+                res.evaluations += 1
+                env = ND()
+                c = env.compile(q)
+                if mode == "same-value":
+                    db_ = da
+                else:
+                    db_ = db
+                want_a = sorted(wire.enc_node(n.location, n.value) for n in det.find(q, da))
+                want_b = sorted(wire.enc_node(n.location, n.value) for n in det.find(q, db_))
+                ia, ib = iter(c.finditer(da)), iter(c.finditer(db_))
+                ga, gb = [], []
+                try:
+                    if mode == "abandon":
+                        n = next(ia, None)
+                        if n is not None:
+                            ga.append(wire.enc_node(n.location, n.value))
+                        n = next(ib, None)
+                        del ib, n
+                        gc.collect()
+                        for n in ia:
+                            ga.append(wire.enc_node(n.location, n.value))
+                        want_b = None
+                    elif mode == "exhaust-other-first":
+                        n = next(ia, None)
+                        if n is not None:
+                            ga.append(wire.enc_node(n.location, n.value))
+                        gb = [wire.enc_node(n.location, n.value) for n in ib]
+                        for n in ia:
+                            ga.append(wire.enc_node(n.location, n.value))
+                    else:
+                        la = lb = True
+                        while la or lb:
+                            if la:
+                                n = next(ia, None)
+                                la = n is not None
+                                if la:
+                                    ga.append(wire.enc_node(n.location, n.value))
+                            if lb:
+                                n = next(ib, None)
+                                lb = n is not None
+                                if lb:
+                                    gb.append(wire.enc_node(n.location, n.value))
+                except jp.JSONPathError as exc:
+                    ga.append("err " + type(exc).__name__)
+                if sorted(ga) != want_a or (want_b is not None and sorted(gb) != want_b):
+                    res.violations.append({"property": "C16", "query": q, "document": [da, db_], "observed": {"first": ga[:12], "second": gb[:12]}, "expected": {"first": want_a[:12], "second": (want_b or [])[:12]},
+                                           "history": f"nondeterministic environment; one compiled query; two iterators ({mode})",
+                                           "what": "an iterator of a nondeterministic environment did not yield exactly the nodes of its own value's result when another iterator of the same query was alive"})
+    res.count("nd-iterator-rounds", 8 * 5 * 4)
 
 
 def thread_stress(rng, tier, res):
